@@ -954,9 +954,9 @@ func (c *grammarClient) rawOrigin(e *Engine, st *State, ev *emitEvent) string {
 		if def != nil {
 			if _, isMap := info.TypeOf(def.X).Underlying().(*types.Map); isMap {
 				if v, ok := objOf(info, def.X).(*types.Var); ok && v.Pkg() != nil && v.Parent() == v.Pkg().Scope() {
-					return "constmap:" + v.Name()
+					return "constmap:" + objName(v)
 				}
-				if f := selField(info, def.X); f != nil && f.Name() == "scope" {
+				if f := selField(info, def.X); f != nil && fldName(f) == "scope" {
 					return "scope"
 				}
 			}
@@ -970,7 +970,7 @@ func (c *grammarClient) rawOrigin(e *Engine, st *State, ev *emitEvent) string {
 		}
 		owner := TypeStr(info.TypeOf(sel.X))
 		switch {
-		case f.Name() == "sourceSQL":
+		case fldName(f) == "sourceSQL":
 			return "sourceSQL"
 		case f.Name() == "Value" && owner == "*parser.BasicLit":
 			k := e.CanonSt(st, sel.X)
